@@ -7,6 +7,7 @@ import (
 	"fmt"
 	"go/token"
 	"go/types"
+	"os"
 	"runtime"
 	"strings"
 
@@ -764,6 +765,9 @@ func (ex *Exec) callBuiltin(caller *frame, callpos token.Pos, fn *ssa.Builtin, a
 		return nil
 
 	case "print", "println":
+		if debugPrint {
+			fmt.Fprintln(os.Stderr, append([]interface{}{"[harness]"}, valuesToIfaces(args)...)...)
+		}
 		return nil
 
 	case "len":
@@ -1026,4 +1030,18 @@ func pkgPathOf(fn *ssa.Function) string {
 func (ex *Exec) callBody(caller *frame, fn *ssa.Function, args []Value) Value {
 	ex.skipIntrinsic = fn
 	return ex.callSSA(caller.caller, 0, fn, args, nil)
+}
+
+var debugPrint = os.Getenv("VERIF_PRINT") != ""
+
+func valuesToIfaces(vs []Value) []interface{} {
+	out := make([]interface{}, len(vs))
+	for i, v := range vs {
+		if t, ok := v.(*Term); ok {
+			out[i] = t.String()
+		} else {
+			out[i] = v
+		}
+	}
+	return out
 }
